@@ -126,3 +126,13 @@ claim("C10",
            "depth <= max_depth, get_leaves_index, path recomputed from the member classifiers, ties at the threshold (stump members).",
       note="Member classifiers obey the estimator protocol (assumed). fit / fit_improve / get_leaves_index are bounded only.",
       technique="deductive verification: recursive contracts over ghost functions P and onpath, mask lemmas; z3 5.1 raced with z3 4.8.12")
+claim("C07",
+      text="Proof of the bookkeeping around the association step: at every call site (constraint_predictions, constraint_kmeans) the quota handed over is "
+           "floor(n/k) with leftover n - k*floor(n/k) in [0,k) and one counter/flag per cluster, one label/distance per point; constraint_kmeans (while loop "
+           "invariant): n_iter <= max_iter, the returned labels are one per training point, training data never written, every association uses the caller's "
+           "strategy; ConstraintKMeans.predict: balanced predictions are the labels of one balanced association of the batch with strategy+'_p', otherwise "
+           "KMeans.predict (nearest centre). The size constraint itself is carried by the bounded stand-in: ALL k<=n<=12 (14), k<=5, both strategies, "
+           "kmeans0 in {T,F}: exact cluster sizes for fit and balanced predict, label validity, n_iter_, finite centres.",
+      note="_constraint_association (distance and gain) is an ASSUMED contract: the counting argument over its three nested randomised loops is not proved. "
+           "Known finding: 'gain' is unbalanced when n mod k >= 2.",
+      technique="deductive verification of the quota arithmetic and driver invariants (z3); the size postcondition only by exhaustive bounded enumeration")
